@@ -453,6 +453,9 @@ def runText (cc : Text.CC) (pname : String) (params : List Nat) (toks : List Nat
   match pname with
   | "ws" => plain (Text.whitespace cc toks 0)
   | "iws" => plain (Text.inlineWhitespace cc toks 0)
+  | "ws_b" => plain (Text.whitespaceB cc r (params.getD 1 9) toks 0)
+  | "iws_b" => plain (Text.inlineWhitespaceB cc r (params.getD 1 9) toks 0)
+  | "ws_x" => plain (Text.whitespaceB cc r r toks 0)
   | "digits" => plain (Text.digits cc r toks 0)
   | "int" => plain (Text.int cc r toks 0)
   | "aident" => plain (Text.asciiIdent cc toks 0)
